@@ -99,17 +99,28 @@ def classify_json(path):
         return 'T'
 
 
+def norm_ninja(data, bdir):
+    """build.ninja with every spelling of the build directory replaced (raw, ninja-escaped, JSON-escaped)"""
+    vs = []
+    for v in (bdir, bdir.replace('$', '$$').replace(' ', '$ ').replace(':', '$:'), json.dumps(bdir)[1:-1]):
+        b = v.encode('utf-8', 'surrogateescape')
+        if b not in vs:
+            vs.append(b)
+    for b in sorted(vs, key=lambda x: -len(x)):
+        data = data.replace(b, b'@B@')
+    return hashlib.sha1(data).hexdigest()
+
+
 def classify_ninja(path, bdir, refs):
     if not os.path.lexists(path):
         return 'A'
-    data = open(path, 'rb').read().replace(bdir.encode(), b'@B@')
-    return 'W' if hashlib.sha1(data).hexdigest() in refs else 'T'
+    return 'W' if norm_ninja(open(path, 'rb').read(), bdir) in refs else 'T'
 
 
 def ninja_hash(path, bdir):
     if not os.path.exists(path):
         return None
-    return hashlib.sha1(open(path, 'rb').read().replace(bdir.encode(), b'@B@')).hexdigest()
+    return norm_ninja(open(path, 'rb').read(), bdir)
 
 
 def classify(d, req):
